@@ -560,9 +560,9 @@ class TestManager:
                     continue
 
                 if not self.no_cache:
+                    # a cached result is only valid for the same contents of all test cases
+                    test_case_before_pass = (test_case, tuple((f, f.read_bytes()) for f in sorted(self.test_cases)))
                     with open(test_case, mode='rb+') as tmp_file:
-                        test_case_before_pass = tmp_file.read()
-
                         if pass_key in self.cache and test_case_before_pass in self.cache[pass_key]:
                             tmp_file.seek(0)
                             tmp_file.truncate(0)
